@@ -37,12 +37,16 @@ var (
 	reRGraph    = regexp.MustCompile(`\.(decorateObject|decorateScope|restoreObject|restoreScope)#|#graph:`)
 	reRSave     = regexp.MustCompile(`\(\*decorator\.Package\)\.save#`)
 	reRErrors   = regexp.MustCompile(`#errors:|error_returned_before|decorating_functions_never_store`)
+	reRImports  = regexp.MustCompile(`updateImports(\$\d+)?#loop|#imports:`)
 	reRDecList  = regexp.MustCompile(`\(\*dst\.Decorations\)\.(\w+)#`)
 )
 
 func replayFor(obligation string) *replaySpec {
 	if reRErrors.MatchString(obligation) {
 		return &replaySpec{"errors", "resolvers", "decorator", "decorator_test.go.part"}
+	}
+	if reRImports.MatchString(obligation) {
+		return &replaySpec{"imports", "imports", "decorator", "decorator_test.go.part"}
 	}
 	if reRGraph.MatchString(obligation) {
 		return &replaySpec{"graph", "objects", "decorator", "decorator_test.go.part"}
@@ -61,6 +65,9 @@ func replayFor(obligation string) *replaySpec {
 	}
 	if reRGraph.MatchString(obligation) {
 		return &replaySpec{"graph", "objects", "decorator", "decorator_test.go.part"}
+	}
+	if reRImports.MatchString(obligation) {
+		return &replaySpec{"imports", "imports", "decorator", "decorator_test.go.part"}
 	}
 	if reRSave.MatchString(obligation) {
 		return &replaySpec{"save", "save", "decorator", "decorator_test.go.part"}
